@@ -2,7 +2,7 @@
 C10 — deep fingerprint of the object graph of a schema (the REAL residue of a call).
 
 `fingerprint(schema)` walks everything reachable from the schema object through instances of classes of
-the `xmlschema` package (their `__dict__` and every `__slots__` entry of their MRO) and through the built-in
+the `xmlschema` package and of elementpath's XPath node classes (their `__dict__` and every `__slots__` entry of their MRO) and through the built-in
 containers, and returns a flat map
 
     (owner index, owner class, attribute)  ->  canonical value
@@ -40,7 +40,9 @@ def _slots(cls) -> list[str]:
 
 def _is_lib(obj: Any) -> bool:
     mod = getattr(type(obj), '__module__', '') or ''
-    return mod == 'xmlschema' or mod.startswith('xmlschema.')
+    # the library's own classes, and the XPath node trees elementpath builds over the schema (`schema.xpath_node`)
+    return mod == 'xmlschema' or mod.startswith('xmlschema.') or mod.startswith('elementpath.xpath_nodes') \
+        or mod.startswith('elementpath.tree_builders')
 
 
 class Namer:
